@@ -3,8 +3,11 @@
   driver that runs `rstep` (the server with its AppNamespace/Mailbox objects) instead of
   `Sys.step`.  Same input format, same output format; `dump` prints the tables of the
   database part (`RSys.core`).  Imports only the model (no Mathlib).
+  Like Main.lean it also accepts the `recvj` form (the JSON object itself, classified by
+  `Wormhole.decodeCmd`) and the `cfgw` form (welcome text computed by `Wormhole.mkCfg`).
 -/
 import Wormhole.Reg
+import Wormhole.Decode
 
 open Wormhole
 
@@ -170,6 +173,83 @@ def parseCfg : List String → Option (Cfg × Int)
     pure ({ allowList := al = "1", usage := us = "1", blur := blur, welcome := w.getD "{}" }, rb)
   | _ => none
 
+def parseCfgw : List String → Option (Cfg × Int)
+  | [al, us, bl, motd, adv, err, rb] => do
+    let blur ← if bl = "-" then some none else bl.toNat?.map some
+    let motd ← parseTok motd >>= tokOptStr
+    let adv ← parseTok adv >>= tokOptStr
+    let err ← parseTok err >>= tokOptStr
+    let rb ← rb.toInt?
+    pure (mkCfg (al = "1") (us = "1") blur motd adv err, rb)
+  | _ => none
+
+/-- a JSON value token of the `recvj` form -/
+def parseJTok (t : String) : Option JVal :=
+  if t = "~" then some .null
+  else if t = "t" then some (.bool true)
+  else if t = "f" then some (.bool false)
+  else if t = "o" then some .other
+  else match t.toList with
+  | 'h' :: rest => (stringOfHex (String.ofList rest)).map .str
+  | 'i' :: rest => (String.ofList rest).toInt?.map .num
+  | _ => none
+
+/-- the pairs of a `recvj` line -> the object, and the exception class of an un-indexable
+    `client_version` (which is then left out of the object) -/
+def parsePairs : List String → Option (JObj × Option String)
+  | [] => some ([], none)
+  | p :: rest => do
+    let (o, bad) ← parsePairs rest
+    match p.splitOn "=" with
+    | ["cv", v] =>
+      if v.startsWith "!" then pure (o, some (v.drop 1).toString)
+      else match v.splitOn "," with
+        | [a, b] => do
+          let a ← parseJTok a
+          let b ← parseJTok b
+          pure (("client_version", .pair a b) :: o, bad)
+        | _ => none
+    | [k, v] => do
+      let k ← stringOfHex k
+      let v ← parseJTok v
+      pure ((k, v) :: o, bad)
+    | _ => none
+
+structure RecvJ where
+  c : Nat
+  t : Int
+  obj : JObj
+  badCv : Option String
+  pick : Nat
+  draws : List Nat
+  fresh : String
+
+def parseRecvJ : List String → Option RecvJ
+  | c :: t :: pick :: draws :: fresh :: pairs => do
+    let c ← c.toNat?
+    let t ← t.toInt?
+    let pick ← pick.toNat?
+    let draws ← parseDraws draws
+    let fresh ← parseTok fresh >>= tokOptStr
+    let (o, bad) ← parsePairs pairs
+    pure ⟨c, t, o, bad, pick, draws, fresh.getD ""⟩
+  | _ => none
+
+/-- one operation (under the pending `crash` prefix, if any) -/
+def runOp (d : DState) (op : Op) : DState × List String :=
+  let op := match d.crash with | some k => Op.crashIn k op | none => op
+  let s1 := rstep d.sys op
+  ({ sys := s1, crash := none }, s1.core.out.map showEvent ++ ["E"])
+
+/-- a `bind` whose `client_version` Python cannot index (see Main.lean) -/
+def runBadCv (d : DState) (op : Op) (cn : Nat) (cls : String) : DState × List String :=
+  let s0 := d.sys
+  let s1 := rstep (s0.onCore (fun s => { s with cfg := { s.cfg with usage := false } })) op
+  let bound := s1.core.out.all (fun e => match e with | .frame _ (.error _) _ => false | _ => true)
+  let s2 := s1.onCore (fun s => { s with cfg := s0.core.cfg })
+  let extra := if bound then [s!"X {cn} {cls}"] else []
+  ({ sys := s2, crash := none }, s1.core.out.map showEvent ++ extra ++ ["E"])
+
 def processLine (d : DState) (line : String) : DState × List String :=
   let toks := (line.trimAscii.toString.splitOn " ").filter (· ≠ "")
   match toks with
@@ -178,6 +258,21 @@ def processLine (d : DState) (line : String) : DState × List String :=
     match parseCfg rest with
     | some (cfg, rb) => ({ d with sys := d.sys.onCore (fun s => { s with cfg := cfg, rebooted := rb }) }, ["E"])
     | none => (d, ["bad-op", "E"])
+  | "cfgw" :: rest =>
+    match parseCfgw rest with
+    | some (cfg, rb) => ({ d with sys := d.sys.onCore (fun s => { s with cfg := cfg, rebooted := rb }) }, ["E"])
+    | none => (d, ["bad-op", "E"])
+  | "recvj" :: rest =>
+    match parseRecvJ rest with
+    | none => (d, ["bad-op", "E"])
+    | some r =>
+      match decodeCmd r.obj r.pick r.draws r.fresh with
+      | none => (d, ["out-of-domain", "E"])
+      | some cmd =>
+        let op := Op.recv r.c r.t (decodeId r.obj) cmd
+        match r.badCv, cmd with
+        | some cls, .bind _ _ _ _ => runBadCv d op r.c cls
+        | _, _ => runOp d op
   | ["crash", k] =>
     match k.toNat? with
     | some k => ({ d with crash := some k }, [])
